@@ -24,7 +24,7 @@ GENF = re.compile(r"^  Generation (\d+) \((.*?)\) (\w+): (\S+) \((\w+)\)\s*$")
 
 
 def budget(tier):
-    return {"cases": 1600, "seconds": 55} if tier == "quick" else {"cases": 40000, "seconds": 600}
+    return {"cases": 1100, "seconds": 55} if tier == "quick" else {"cases": 40000, "seconds": 600}
 
 
 def run_case(cs):
@@ -40,6 +40,10 @@ def run_case(cs):
             tree[(s + "/" if s else "") + "f%d" % i + world.gen_name(rng, rng.choice(["plain", "space", "uni"]))] = rng.randbytes(rng.randint(1, 20)) + bytes([i])
     if not any(v is not None for v in tree.values()):
         tree["only.bin"] = b"x"
+    if rng.random() < 0.04:
+        for i in range(rng.randint(80, 200)):
+            tree["plain/%03d-%s" % (i, world.gen_name(rng, rng.choice(["long", "uni", "space", "plain"])))] = bytes([i % 251]) * (1 + i % 3)
+        cs.count("big_histories")
     world.write_tree(root, tree)
     files = sorted(k for k, v in tree.items() if v is not None)
     steps = []
@@ -115,7 +119,7 @@ def run_case(cs):
                 {**ctx, "got": {k: v[:4] for k, v in blocks.items()}, "want": {k: v[:4] for k, v in want.items()}},
             )
     # ---------- info -sf FILE
-    for f in rng.sample(files, min(len(files), 4)):
+    for f in rng.sample(files, min(len(files), 4 if len(files) < 60 else 14)):
         h = world.owner(f, hists)
         rel = world.rel_to(f, h)
         give_root = rng.random() < 0.5
@@ -160,6 +164,39 @@ def run_case(cs):
                 {"kind": "info-sf-lines", "fewer": len(got) < len(want), "more": len(got) > len(want), "same_multiset": sorted(got) == sorted(want), "nested": h != "."},
                 {**c2, "got": got[:5], "want": want[:5]},
             )
+    # ---------- big histories: every recorded file of the root history in ONE info invocation (-sf may be repeated)
+    if len(files) >= 60:
+        mine = [f for f in files if world.owner(f, hists) == "."]
+        argv = [x for f in mine for x in ("-sf", os.path.join(root, f))] + [root]
+        r = drive.run("info", argv)
+        cs.evaluated()
+        cs.count("info_sf_bulk_files", len(mine))
+        if r.internal or r.exit != 0:
+            cs.violation(classify.internal_key(r) if r.internal else "info-sf-nonzero", {"kind": "info-sf-exit", "exit": r.exit, "nested": False, "bulk": True}, {**ctx, **r.brief()})
+        else:
+            sections = {}
+            cur = None
+            heads = {f + ":": f for f in mine}
+            for line in r.out.split("\n"):
+                if line in heads:
+                    cur = heads[line]
+                    sections[cur] = []
+                    continue
+                m = GENF.match(line)
+                if m and cur is not None:
+                    sections[cur].append((int(m.group(1)), m.group(2), m.group(3), m.group(4), m.group(5)))
+            bad = []
+            for f in mine:
+                want = []
+                for no, name, m in model["."]:
+                    for rec in m["hashes"]:
+                        if rec["kind"] == "file" and rec["path"] == f:
+                            for fm, dg, a, _hd in rec["entries"]:
+                                want.append((no, m["creatorinfo"]["creationdate"], fm, dg, a))
+                if sections.get(f, []) != want:
+                    bad.append((f, len(sections.get(f, [])), len(want)))
+            if bad:
+                cs.violation("info-sf-lines-differ", {"kind": "info-sf-lines", "fewer": any(b[1] < b[2] for b in bad), "more": any(b[1] > b[2] for b in bad), "bulk": True, "nested": False}, {**ctx, "files_wrong": bad[:5], "files_total": len(mine)})
     # ---------- no history
     if rng.random() < 0.4:
         bare = os.path.join(d, "bare")
